@@ -11,8 +11,8 @@ CONSTANTS
   Holds = {TRUE, FALSE}
   RegStates = {"valid", "revoked"}
   RegKeys = {"k1", "k2"}
-  RegWindows = {"ok", "expired"}
-  RegUsages = {"client"}
+  RegWindows = {"ok", "expired", "notYet"}
+  RegUsages = {"client", "server"}
   RegOthers = {TRUE}
   Routes = {"manifest", "lstatus", "sstatus", "events", "logs", "shell"}
   DTokens = {"own", "other", "alpha", "overflow"}
